@@ -1,4 +1,5 @@
 pub mod link;
+pub mod c01;
 pub mod c12;
 pub mod c15;
 pub mod c17;
